@@ -69,7 +69,8 @@ structure Repo.Inv (s : Repo) : Prop where
   excl : s.wcount = 0 ∨ s.cf.count = 0
   fb_pos : 0 < s.depth → s.fb = 1
   fb_zero : s.depth = 0 → s.fb = 0
-  fb_bal : Balanced s.fbLog (decide (0 < s.depth))
+  fb_bal_pos : 0 < s.depth → Balanced s.fbLog true
+  fb_bal_zero : s.depth = 0 → Balanced s.fbLog false
 
 structure Branch.Inv (s : Branch) : Prop where
   cf : s.cf.Inv
@@ -228,5 +229,360 @@ theorem LF.inv_run {s : LF} (h : s.Inv) (ops : List Op) : (s.run ops).Inv := by
   induction ops generalizing s with
   | nil => exact h
   | cons o ops ih => exact ih (LF.inv_step h o)
+
+theorem LF.lockRead_spec {s : LF} (h : s.Inv) :
+    ∃ s', s.lockRead = (s', .ok none) ∧ s'.count = s.count + 1 ∧ s'.Inv ∧
+      (0 < s.count → s' = { s with count := s.count + 1 }) := by
+  have hi := LF.inv_step h .lockRead
+  obtain ⟨h1, ht, h2, h3⟩ := h
+  simp only [LF.step] at hi
+  unfold LF.lockRead at hi ⊢
+  split
+  · next hm => exact ⟨_, rfl, rfl, by simpa [hm] using hi, fun _ => rfl⟩
+  · next hm =>
+    have hmn : s.mode = none := by simpa using hm
+    have htn : s.txn = none := by rw [ht]; exact hmn
+    have hc : s.count = 0 := by
+      have : ¬ 0 < s.count := fun h => hm (h2.mpr h)
+      omega
+    simp only [hm, htn, Option.isSome_none, Bool.false_eq_true, if_false] at hi ⊢
+    exact ⟨_, rfl, by simp [hc], hi, fun h => by omega⟩
+
+theorem LF.unlock_spec {s : LF} (h : s.Inv) :
+    (s.count = 0 ∧ s.unlock = (s, .error .notHeld)) ∨
+    (0 < s.count ∧ ∃ s', s.unlock = (s', .ok none) ∧ s'.count + 1 = s.count ∧ s'.Inv) := by
+  have hi := LF.inv_step h .unlock
+  obtain ⟨h1, ht, h2, h3⟩ := h
+  simp only [LF.step] at hi
+  unfold LF.unlock at hi ⊢
+  by_cases hm : s.mode.isNone = true
+  · left
+    have hmn : s.mode = none := Option.isNone_iff_eq_none.mp hm
+    have : s.count = 0 := by
+      have : ¬ 0 < s.count := fun h => by
+        have := h2.mpr h
+        rw [hmn] at this
+        cases this
+      omega
+    exact ⟨this, by simp [hm]⟩
+  · right
+    have hs : s.mode.isSome = true := by
+      cases hmm : s.mode with
+      | none => rw [hmm] at hm; exact absurd rfl hm
+      | some _ => rfl
+    have hc := h2.mp hs
+    refine ⟨hc, ?_⟩
+    simp only [hm] at hi ⊢
+    by_cases hc1 : s.count > 1
+    · simp only [hc1, if_true] at hi ⊢
+      exact ⟨_, rfl, by simp; omega, hi⟩
+    · have htn : s.txn.isNone = false := by
+        rw [ht]
+        cases hmm : s.mode with
+        | none => rw [hmm] at hs; cases hs
+        | some _ => rfl
+      simp only [hc1, if_false, htn, Bool.false_eq_true] at hi ⊢
+      exact ⟨_, rfl, by simp; omega, hi⟩
+
+theorem Repo.isLocked_iff (s : Repo) : s.isLocked = true ↔ 0 < s.depth := by
+  simp [Repo.isLocked, Repo.depth, LF.isLocked]; omega
+
+/-! ### PackRepository -/
+
+theorem Repo.lockWrite_spec {s : Repo} (_h : s.Inv) (tok : Option Nat) :
+    (s.wcount = 0 ∧ 0 < s.cf.count ∧ s.lockWrite tok = (s, .error .readOnly)) ∨
+    (0 < s.wcount ∧ s.lockWrite tok = ({ s with wcount := s.wcount + 1 }, .ok none)) ∨
+    (s.depth = 0 ∧ s.lockWrite tok =
+      ({ s with wcount := 1, fb := s.fb + 1, fbLog := s.fbLog ++ [.acqR] }, .ok none)) := by
+  have hl := Repo.isLocked_iff s
+  unfold Repo.depth at hl ⊢
+  unfold Repo.lockWrite Repo.lockFallbacks
+  by_cases hw : s.wcount = 0
+  · by_cases hc : 0 < s.cf.count
+    · left
+      have : s.isLocked = true := hl.mpr (by omega)
+      exact ⟨hw, hc, by simp [hw, this]⟩
+    · right; right
+      have : s.isLocked = false := by
+        cases hb : s.isLocked with
+        | false => rfl
+        | true => have := hl.mp hb; omega
+      exact ⟨by omega, by simp [hw, this]⟩
+  · right; left
+    have : s.isLocked = true := hl.mpr (by omega)
+    exact ⟨by omega, by simp [hw, this]⟩
+
+theorem Repo.lockRead_spec {s : Repo} (h : s.Inv) :
+    (0 < s.wcount ∧ s.lockRead = ({ s with wcount := s.wcount + 1 }, .ok none)) ∨
+    (s.wcount = 0 ∧ ∃ cf', s.cf.lockRead = (cf', .ok none) ∧ cf'.count = s.cf.count + 1 ∧ cf'.Inv ∧
+      (0 < s.cf.count → cf' = { s.cf with count := s.cf.count + 1 }) ∧
+      s.lockRead = (if 0 < s.cf.count then { s with cf := cf' }
+        else { s with cf := cf', fb := s.fb + 1, fbLog := s.fbLog ++ [.acqR] }, .ok none)) := by
+  have hl := Repo.isLocked_iff s
+  unfold Repo.depth at hl
+  unfold Repo.lockRead Repo.lockFallbacks
+  by_cases hw : s.wcount = 0
+  · right
+    obtain ⟨cf', h1, h2, h3, h4⟩ := LF.lockRead_spec h.cf
+    refine ⟨hw, cf', h1, h2, h3, h4, ?_⟩
+    by_cases hc : 0 < s.cf.count
+    · have : s.isLocked = true := hl.mpr (by omega)
+      simp [hw, h1, this, hc]
+    · have : s.isLocked = false := by
+        cases hb : s.isLocked with
+        | false => rfl
+        | true => have := hl.mp hb; omega
+      simp [hw, h1, this, hc]
+  · left
+    have : s.isLocked = true := hl.mpr (by omega)
+    exact ⟨by omega, by simp [hw, this]⟩
+
+theorem Repo.unlock_spec {s : Repo} (h : s.Inv) :
+    (s.depth = 0 ∧ s.unlock = (s, .error .notHeld)) ∨
+    (0 < s.wcount ∧ s.unlock =
+      (if 1 < s.wcount then { s with wcount := s.wcount - 1 }
+       else { s with wcount := 0, fb := s.fb - 1, fbLog := s.fbLog ++ [.rel] }, .ok none)) ∨
+    (s.wcount = 0 ∧ 0 < s.cf.count ∧ ∃ cf', s.cf.unlock = (cf', .ok none) ∧
+      cf'.count + 1 = s.cf.count ∧ cf'.Inv ∧
+      s.unlock = (if 1 < s.cf.count then { s with cf := cf' }
+        else { s with cf := cf', fb := s.fb - 1, fbLog := s.fbLog ++ [.rel] }, .ok none)) := by
+  unfold Repo.depth
+  by_cases hw : s.wcount = 0
+  · rcases LF.unlock_spec h.cf with ⟨hc, hu⟩ | ⟨hc, cf', hu, hcc, hi⟩
+    · left
+      refine ⟨by omega, ?_⟩
+      simp only [Repo.unlock, hw, hu]
+      cases s
+      simp_all
+    · right; right
+      refine ⟨hw, hc, cf', hu, hcc, hi, ?_⟩
+      by_cases h1 : 1 < s.cf.count
+      · have : 1 ≤ cf'.count := by omega
+        simp [Repo.unlock, hw, hu, Repo.isLocked, LF.isLocked, h1, this]
+      · have : ¬ 1 ≤ cf'.count := by omega
+        simp [Repo.unlock, hw, hu, Repo.isLocked, LF.isLocked, h1, this]
+  · right; left
+    refine ⟨by omega, ?_⟩
+    have hc : s.cf.count = 0 := by
+      rcases h.excl with h | h
+      · exact absurd h hw
+      · exact h
+    by_cases h1 : 1 < s.wcount
+    · have : ¬ s.wcount - 1 = 0 := by omega
+      simp [Repo.unlock, hw, Repo.isLocked, LF.isLocked, h1, this]
+    · have : s.wcount - 1 = 0 := by omega
+      simp [Repo.unlock, hw, Repo.isLocked, LF.isLocked, h1, this, hc]
+
+theorem Repo.inv_step {s : Repo} (h : s.Inv) (o : Op) : (s.step o).1.Inv := by
+  have hcf := h.cf
+  have hex := h.excl
+  have hp := h.fb_pos
+  have hz := h.fb_zero
+  have hbp := h.fb_bal_pos
+  have hbz := h.fb_bal_zero
+  unfold Repo.depth at hp hz hbp hbz
+  cases o with
+  | lockWrite tok =>
+    simp only [Repo.step]
+    rcases Repo.lockWrite_spec h tok with ⟨hw, hc, e⟩ | ⟨hw, e⟩ | ⟨hd, e⟩
+    · rw [e]; exact h
+    · rw [e]
+      have hc : s.cf.count = 0 := by omega
+      refine ⟨hcf, Or.inr hc, ?_, ?_, ?_, ?_⟩ <;> dsimp only [Repo.depth] <;> intro h0
+      · exact hp (by omega)
+      · omega
+      · exact hbp (by omega)
+      · omega
+    · rw [e]
+      unfold Repo.depth at hd
+      refine ⟨hcf, Or.inr (show s.cf.count = 0 by omega), ?_, ?_, ?_, ?_⟩ <;> dsimp only [Repo.depth] <;> intro h0
+      · have := hz (by omega); omega
+      · omega
+      · exact (hbz (by omega)).acquire .acqR (by decide)
+      · omega
+  | lockRead =>
+    simp only [Repo.step]
+    rcases Repo.lockRead_spec h with ⟨hw, e⟩ | ⟨hw, cf', _, hcc, hi, _, e⟩
+    · rw [e]
+      have hc : s.cf.count = 0 := by omega
+      refine ⟨hcf, Or.inr hc, ?_, ?_, ?_, ?_⟩ <;> dsimp only [Repo.depth] <;> intro h0
+      · exact hp (by omega)
+      · omega
+      · exact hbp (by omega)
+      · omega
+    · rw [e]
+      by_cases hc : 0 < s.cf.count
+      · simp only [hc, if_true]
+        refine ⟨hi, Or.inl hw, ?_, ?_, ?_, ?_⟩ <;> dsimp only [Repo.depth] <;> intro h0
+        · exact hp (by omega)
+        · omega
+        · exact hbp (by omega)
+        · omega
+      · simp only [hc, if_false]
+        refine ⟨hi, Or.inl hw, ?_, ?_, ?_, ?_⟩ <;> dsimp only [Repo.depth] <;> intro h0
+        · have := hz (by omega); omega
+        · omega
+        · exact (hbz (by omega)).acquire .acqR (by decide)
+        · omega
+  | unlock =>
+    simp only [Repo.step]
+    rcases Repo.unlock_spec h with ⟨hd, e⟩ | ⟨hw, e⟩ | ⟨hw, hc, cf', _, hcc, hi, e⟩
+    · rw [e]; exact h
+    · rw [e]
+      have hc : s.cf.count = 0 := by omega
+      by_cases h1 : 1 < s.wcount
+      · simp only [h1, if_true]
+        refine ⟨hcf, Or.inr hc, ?_, ?_, ?_, ?_⟩ <;> dsimp only [Repo.depth] <;> intro h0
+        · exact hp (by omega)
+        · omega
+        · exact hbp (by omega)
+        · omega
+      · simp only [h1, if_false]
+        refine ⟨hcf, Or.inl rfl, ?_, ?_, ?_, ?_⟩ <;> dsimp only [Repo.depth] <;> intro h0
+        · omega
+        · have := hp (by omega); omega
+        · omega
+        · exact (hbp (by omega)).release
+    · rw [e]
+      by_cases h1 : 1 < s.cf.count
+      · simp only [h1, if_true]
+        refine ⟨hi, Or.inl hw, ?_, ?_, ?_, ?_⟩ <;> dsimp only [Repo.depth] <;> intro h0
+        · exact hp (by omega)
+        · omega
+        · exact hbp (by omega)
+        · omega
+      · simp only [h1, if_false]
+        refine ⟨hi, Or.inl hw, ?_, ?_, ?_, ?_⟩ <;> dsimp only [Repo.depth] <;> intro h0
+        · omega
+        · have := hp (by omega); omega
+        · omega
+        · exact (hbp (by omega)).release
+
+theorem Repo.inv_init (ext : Bool) : (Repo.init ext).Inv :=
+  ⟨LF.inv_init ext, Or.inl rfl, by intro h; simp [Repo.init, Repo.depth, LF.init] at h, fun _ => rfl,
+   by intro h; simp [Repo.init, Repo.depth, LF.init] at h, fun _ => Balanced.nil⟩
+
+theorem Repo.inv_run {s : Repo} (h : s.Inv) (ops : List Op) : (s.run ops).Inv := by
+  induction ops generalizing s with
+  | nil => exact h
+  | cons o ops ih => exact ih (Repo.inv_step h o)
+
+/-! ### BzrBranch -/
+
+theorem Repo.unlock_inv {s : Repo} (h : s.Inv) : s.unlock.1.Inv := Repo.inv_step h .unlock
+theorem Repo.lockRead_inv {s : Repo} (h : s.Inv) : s.lockRead.1.Inv := Repo.inv_step h .lockRead
+theorem Repo.lockWrite_inv {s : Repo} (h : s.Inv) (t : Option Nat) : (s.lockWrite t).1.Inv :=
+  Repo.inv_step h (.lockWrite t)
+theorem LF.unlock_inv {s : LF} (h : s.Inv) : s.unlock.1.Inv := LF.inv_step h .unlock
+theorem LF.lockRead_inv {s : LF} (h : s.Inv) : s.lockRead.1.Inv := LF.inv_step h .lockRead
+theorem LF.lockWrite_inv {s : LF} (h : s.Inv) (t : Option Nat) : (s.lockWrite t).1.Inv :=
+  LF.inv_step h (.lockWrite t)
+
+theorem Branch.finishLock_inv {s : Branch} (h : s.Inv) (b : Bool) (r : LF × Res) (hr : r.1.Inv) :
+    (Branch.finishLock s b r).1.Inv := by
+  obtain ⟨cf, res⟩ := r
+  cases res with
+  | ok t => exact ⟨hr, h.repo⟩
+  | error e =>
+    cases b with
+    | false => exact ⟨hr, h.repo⟩
+    | true =>
+      have hu := Repo.unlock_inv h.repo
+      simp only [Branch.finishLock, if_true]
+      rcases hx : s.repo.unlock with ⟨repo, r'⟩
+      rw [hx] at hu
+      cases r' <;> exact ⟨hr, hu⟩
+
+theorem Branch.inv_step {s : Branch} (h : s.Inv) (o : SOp) : (s.step o).1.Inv := by
+  cases o with
+  | repo o =>
+    simp only [Branch.step]
+    exact ⟨h.cf, Repo.inv_step h.repo o⟩
+  | branch o =>
+    cases o with
+    | lockRead =>
+      simp only [Branch.step, Branch.lockRead]
+      split
+      · have hr := Repo.lockRead_inv h.repo
+        rcases hx : s.repo.lockRead with ⟨repo, r'⟩
+        rw [hx] at hr
+        cases r' with
+        | error e => exact ⟨h.cf, hr⟩
+        | ok t =>
+          exact Branch.finishLock_inv (s := { s with repo := repo }) ⟨h.cf, hr⟩ true _ (LF.lockRead_inv h.cf)
+      · exact Branch.finishLock_inv h false _ (LF.lockRead_inv h.cf)
+    | lockWrite tok =>
+      simp only [Branch.step, Branch.lockWrite]
+      split
+      · have hr := Repo.lockWrite_inv h.repo none
+        rcases hx : s.repo.lockWrite none with ⟨repo, r'⟩
+        rw [hx] at hr
+        cases r' with
+        | error e => exact ⟨h.cf, hr⟩
+        | ok t =>
+          exact Branch.finishLock_inv (s := { s with repo := repo }) ⟨h.cf, hr⟩ true _ (LF.lockWrite_inv h.cf tok)
+      · exact Branch.finishLock_inv h false _ (LF.lockWrite_inv h.cf tok)
+    | unlock =>
+      simp only [Branch.step, Branch.unlock]
+      have hc := LF.unlock_inv h.cf
+      rcases hx : s.cf.unlock with ⟨cf, r⟩
+      rw [hx] at hc
+      simp only
+      split
+      · have hu := Repo.unlock_inv h.repo
+        rcases hy : s.repo.unlock with ⟨repo, r'⟩
+        rw [hy] at hu
+        cases r' <;> exact ⟨hc, hu⟩
+      · exact ⟨hc, h.repo⟩
+
+theorem Branch.inv_init (ext : Bool) : (Branch.init ext).Inv := ⟨LF.inv_init ext, Repo.inv_init ext⟩
+
+theorem Branch.inv_run {s : Branch} (h : s.Inv) (ops : List SOp) : (s.run ops).Inv := by
+  induction ops generalizing s with
+  | nil => exact h
+  | cons o ops ih => exact ih (Branch.inv_step h o)
+
+/-- `lock_write` on unlocked control files: refused by the physical lock with
+nothing changed, or granted with count 1 -/
+theorem LF.lockWrite_unlocked {s : LF} (h : s.Inv) (hc : s.count = 0) (tok : Option Nat) :
+    (∃ e, s.lockWrite tok = (s, .error e)) ∨ (∃ s' t, s.lockWrite tok = (s', .ok t) ∧ s'.count = 1) := by
+  obtain ⟨h1, ht, h2, h3⟩ := h
+  have hmn : s.mode = none := by
+    cases hm : s.mode with
+    | none => rfl
+    | some m => have := h2.mp (by simp [hm]); omega
+  have htn : s.txn = none := by rw [ht]; exact hmn
+  unfold LF.lockWrite
+  simp only [hmn, Option.isSome_none, Bool.false_eq_true, if_false]
+  cases hp : s.phys.lockWrite tok with
+  | error e => left; exact ⟨e, rfl⟩
+  | ok r =>
+    obtain ⟨p, t⟩ := r
+    right
+    simp only [htn, Option.isSome_none, Bool.false_eq_true, if_false]
+    exact ⟨_, t, rfl, rfl⟩
+
+/-- taking a repository lock and giving it back restores the lock state -/
+theorem Repo.lockWrite_unlock_core {s : Repo} (h : s.Inv) {r : Repo} {t : Option Nat}
+    (e : s.lockWrite none = (r, .ok t)) : ∃ r', r.unlock = (r', .ok none) ∧ r'.core = s.core := by
+  have hr : r.Inv := by have := Repo.lockWrite_inv h none; rw [e] at this; exact this
+  rcases Repo.lockWrite_spec h none with ⟨_, _, e'⟩ | ⟨hw, e'⟩ | ⟨hd, e'⟩
+  · rw [e'] at e; cases e
+  · rw [e'] at e; injection e with e1 _; subst e1
+    rcases Repo.unlock_spec hr with ⟨hd', _⟩ | ⟨_, eu⟩ | ⟨hw', _⟩
+    · simp only [Repo.depth] at hd'; omega
+    · refine ⟨_, eu, ?_⟩
+      have : 1 < s.wcount + 1 := by omega
+      simp only [this, if_true]
+      simp [Repo.core]
+    · simp only at hw'; omega
+  · rw [e'] at e; injection e with e1 _; subst e1
+    simp only [Repo.depth] at hd
+    rcases Repo.unlock_spec hr with ⟨hd', _⟩ | ⟨_, eu⟩ | ⟨hw', _⟩
+    · simp only [Repo.depth] at hd'; omega
+    · refine ⟨_, eu, ?_⟩
+      simp only [Nat.lt_irrefl, if_false]
+      simp [Repo.core]; omega
+    · simp only at hw'; omega
 
 end BreezyVerif.C28
